@@ -53,7 +53,7 @@ def _mean(xs):
     return s / len(xs)
 
 
-def h_response(ctx, scenario, bidir):
+def h_response(ctx, scenario, bidir, spectrum='free'):
     import io
     import gnpy.topology.request as rq_mod
     from gnpy.topology.request import compute_path_with_disjunction, ResultElement, jsontocsv
@@ -94,13 +94,22 @@ def h_response(ctx, scenario, bidir):
     for i in range(2):
         o = OMS(oms_id=i, el_id_list=[], el_list=[])
         o.update_spectrum(nvalue_to_frequency(-40), nvalue_to_frequency(40), guardband=G, grid=G)
+        if spectrum == 'occupied':
+            o.assign_spectrum(0, 36)          # nothing left for this request: it is blocked at spectrum assignment
         oms_list.append(o)
+    pre_blocked = hasattr(req, 'blocking_reason')
     pth_assign_spectrum([path], [req], oms_list, revp)
     res = ResultElement(req, prop[0], revprop[0])
     blocked = hasattr(req, 'blocking_reason')
     j = res.json
-    info = dict(scenario=scenario, bidir=bidir, blocked=blocked)
+    info = dict(scenario=scenario, bidir=bidir, blocked=blocked, spectrum=spectrum, reason=getattr(req, 'blocking_reason', None))
     ctx.prove('response carries the request id', j['response-id'] == 'r1', info=info)
+    if spectrum == 'occupied' and not pre_blocked:
+        ctx.prove('request without free spectrum is blocked for that reason', getattr(req, 'blocking_reason', None) in
+                  ('NO_SPECTRUM', 'NOT_ENOUGH_RESERVED_SPECTRUM'), info=info)
+    if blocked and 'no-path' not in j:
+        ctx.prove('blocked request is reported as no-path with its blocking reason', False, info=dict(info, keys=sorted(j)))
+        return
     props = j['no-path']['path-properties'] if blocked else j['path-properties']
     if blocked:
         ctx.prove('blocked request carries its blocking reason', j['no-path']['no-path'] == req.blocking_reason, info=info)
@@ -227,5 +236,9 @@ def jobs(tier):
         for bidir in (False, True):
             js.append(dict(name=f'H19:response:{sc}:{"bidir" if bidir else "unidir"}', fn='h_response', params=dict(scenario=sc, bidir=bidir),
                            cost=200 if bidir else 60, witness_every=3, budget_s=150 if tier == 'quick' else 600))
+    for bidir in (False, True):
+        js.append(dict(name=f'H19:response:zero:{"bidir" if bidir else "unidir"}:no_free_spectrum', fn='h_response',
+                       params=dict(scenario='zero', bidir=bidir, spectrum='occupied'), cost=100, witness_every=3,
+                       budget_s=150 if tier == 'quick' else 600))
     js.append(dict(name='H19:aggregation', fn='h_aggregation', cost=5))
     return js
